@@ -145,7 +145,10 @@ def correspondence(ctx, utils):
                 b = abs(b) if math.isfinite(b) else 0.0
             elif m in ("__eq__", "__ne__", "__lt__", "__gt__", "__le__", "__ge__") and rng.random() < 0.7:
                 b = -abs(b) if math.isfinite(b) else 0.0     # decidable without evaluating exp numerically
-            cases.append(("method", m, a, ("F", b if math.isfinite(b) else 0.0)))
+            bb = b if math.isfinite(b) else 0.0
+            if m == "__truediv__" and bb == 0.0:
+                bb = 1.0                           # division by a plain zero raises in Python: outside the arithmetic the property is about
+            cases.append(("method", m, a, ("F", bb)))
     for _ in range(n // 3):
         m = RMETHODS[rng.integers(0, len(RMETHODS))]
         b = next(it)
@@ -187,6 +190,11 @@ def correspondence(ctx, utils):
             # the branch depends on the numerical value of a primitive (e.g. exp(log_val) < plain number):
             # outside what the branch-selection model decides; covered by the theorems and the search only
             ctx.count("corr:undecided_by_model")
+            continue
+        if (not ok and kind == "method" and name in ("__eq__", "__ne__", "__lt__", "__gt__", "__le__", "__ge__") and b is not None and b[0] == "F"
+                and isinstance(a, float) and (a < -700 or a > 700)):
+            # mixed comparison of a value whose plain rendering underflows / overflows: decided by the dedicated oracle of the search (known finding G24)
+            ctx.count("corr:mixed_comparison_of_extreme_value")
             continue
         if not ok:
             dis += 1
@@ -378,6 +386,41 @@ def search(ctx, utils):
     ctx.oblige(f"search: {nseq} LogRepFloat accumulation sequences, products, ratios, differences, orderings", bad == 0, f"{bad} failures")
 
 
+def mixed_comparison_search(ctx, utils):
+    """comparisons with plain numbers order a value as the real number it represents, also when that number underflows or overflows as a plain float"""
+    L = utils.LogRepFloat
+    bad = 0
+    import operator
+    ops = {"==": operator.eq, "!=": operator.ne, "<": operator.lt, ">": operator.gt, "<=": operator.le, ">=": operator.ge}
+    for lv in (-15086.5, -800.0, -746.0, -3.0, 0.0, 5.0, 709.0, 711.0, 800.0, 1e5):
+        for other in (0.0, 5e-324, 1e-300, 0.5, 1.0, 1e300, 1.7976931348623157e308, math.inf, -1.0, -math.inf):
+            # the real number exp(lv) against the plain number: exp(lv) > 0 always, finite always; use logs where both are positive
+            if other <= 0:
+                sign = 1                     # exp(lv) > other
+            elif math.isinf(other):
+                sign = -1
+            else:
+                lo = math.log(other)
+                sign = 0 if lv == lo and abs(lv) < 700 else (1 if lv > lo else -1)
+                if abs(lv - lo) < 1e-9 * max(1.0, abs(lo)) and sign != 0:
+                    continue                 # too close to decide independently of rounding
+            want = {"==": sign == 0, "!=": sign != 0, "<": sign < 0, ">": sign > 0, "<=": sign <= 0, ">=": sign >= 0}
+            for name, f in ops.items():
+                for flipped in (False, True):
+                    got = f(other, L(log_val=lv)) if flipped else f(L(log_val=lv), other)
+                    w = want[{"<": ">", ">": "<", "<=": ">=", ">=": "<="}.get(name, name)] if flipped else want[name]
+                    ctx.case(("mixedcmp", lv, other, name, flipped))
+                    ctx.count("search:mixed_comparisons")
+                    if bool(got) != w:
+                        extreme = lv < -700 or lv > 700
+                        key = "compare:plain:value_underflows_or_overflows" if extreme else f"compare:plain:{name}"
+                        bad += not ctx.is_known(key)
+                        ctx.fail(key, f"LogRepFloat(log_val={lv}) {name} {other!r}" + (" (operands swapped)" if flipped else "") + f" is {bool(got)}, the real number exp({lv}) "
+                                 f"{'=' if sign == 0 else '>' if sign > 0 else '<'} {other!r}", {"log_val": lv, "other": repr(other), "op": name, "flipped": flipped})
+    ctx.oblige("search: all six comparisons of LogRepFloat values (incl. underflowing / overflowing ones) with plain numbers 0, tiny, 1, huge, inf, negative, both operand orders",
+               bad == 0, f"{bad} failures")
+
+
 def weights_in_transitions_search(ctx):
     """where the log-space arithmetic is USED: the dynamic transitions weigh states by exp(-h).  Adding a constant to the potential changes no ratio of
     weights, so a seeded chain must not change -- including constants that make every weight underflow (h > 745) or overflow as a plain float"""
@@ -424,4 +467,5 @@ def run(ctx):
     if model_ok:
         correspondence(ctx, utils)
     search(ctx, utils)
+    mixed_comparison_search(ctx, utils)
     weights_in_transitions_search(ctx)
